@@ -346,12 +346,26 @@ func copyDenseIter(dst, src DenseTensor, diter, siter Iterator) (int, error) {
 		if md, ok := dst.(MaskedTensor); ok {
 			dmask := md.Mask()
 			smask := ms.Mask()
-			if cap(dmask) < len(smask) {
-				dmask = make([]bool, len(smask))
+			if len(dmask) < dst.len() {
+				dmask = make([]bool, dst.len())
 				copy(dmask, md.Mask())
 				md.SetMask(dmask)
 			}
-			copy(dmask, smask)
+			// entry by entry in element order, like the elements below: a flat copy pairs the wrong
+			// entries and also writes those between the elements of a non-contiguous destination,
+			// which belong to the tensor it is a view of
+			mdi := FlatIteratorFromDense(dst)
+			msi := FlatIteratorFromDense(src)
+			for {
+				i, derr := mdi.Next()
+				j, serr := msi.Next()
+				if derr != nil || serr != nil {
+					break
+				}
+				if i < len(dmask) && j < len(smask) {
+					dmask[i] = smask[j]
+				}
+			}
 		}
 	}
 	return storage.CopyIter(dst.rtype(), dst.hdr(), src.hdr(), diter, siter), nil
